@@ -5,6 +5,12 @@
 //	verif-extract-wait <repo> <out.v>        translate
 //	verif-extract-wait -dump <repo>          print every leaf text per function (for maintenance)
 //
+// The deadline-change broadcast (type deadlineSignal) is a primitive of the IR: `changed :=
+// X.watch()` becomes SWatch, `<-changed` RcvChanged, `X.broadcast()` PBroadcast.  What these
+// primitives mean is fixed in Model.v, so the translator also compares the printed bodies of
+// (deadlineSignal).watch and (deadlineSignal).broadcast and the type's declaration with the
+// text the model was written for (primBodies) and fails when they differ.
+//
 // Standard library only.  Structure (blocks, if/else, for{}, labels, goto, select, switch on
 // untracked data, sync.Once closures, Lock/Unlock) is translated structurally; every leaf
 // (condition, simple statement, channel operation, return) is looked up by its printed source
@@ -32,6 +38,7 @@ type dict struct {
 	onces map[string]string // receiver of .Do( -> once
 	tags  map[string]bool   // switch tags acknowledged as untracked data
 	procs map[string]string // method call statement -> proc (inlined)
+	watch map[string]string // `changed := X.watch()` -> which deadline's signal (a yield point)
 }
 
 type target struct {
@@ -92,6 +99,7 @@ var targets = []target{
 			"n = copy(b, s.recvbuf)":                                      "SCall PNop",
 			"s.bufptr = s.recvbuf[n:]":                                    "SCall PSetBufRest",
 		}),
+		watch: map[string]string{"changed := s.rdChanged.watch()": "RD"},
 		conds: merge(timerConds, map[string]string{
 			"trd, ok := s.rd.Load().(time.Time); ok && !trd.IsZero()": "CDeadlineSet RD",
 			// anticipated repair of the stale-timer timeouts (B11, several callers): re-validate on <-c
@@ -104,6 +112,7 @@ var targets = []target{
 		}),
 		comms: map[string]string{
 			"<-s.chReadEvent":       "RcvReadEvent",
+			"<-changed":             "RcvChanged",
 			"<-c":                   "RcvC",
 			"<-timeout.C":           "RcvTimerC",
 			"<-s.chSocketReadError": "RcvRErr",
@@ -128,6 +137,7 @@ var targets = []target{
 			"if waitsnd >= int(s.kcp.snd_wnd) || !s.writeDelay { s.kcp.flush(IKCP_FLUSH_FULL) }": "SCall PFlush",
 			"atomic.AddUint64(&DefaultSnmp.BytesSent, uint64(n))":                                "SCall PNop",
 		}),
+		watch: map[string]string{"changed := s.wdChanged.watch()": "WD"},
 		conds: merge(timerConds, map[string]string{
 			"twd, ok := s.wd.Load().(time.Time); ok && !twd.IsZero()":                           "CDeadlineSet WD",
 			"twd, ok := s.wd.Load().(time.Time); !ok || twd.IsZero() || time.Now().Before(twd)": "CDeadlineNotDue WD",
@@ -135,6 +145,7 @@ var targets = []target{
 		}),
 		comms: map[string]string{
 			"<-s.chWriteEvent":       "RcvWriteEvent",
+			"<-changed":              "RcvChanged",
 			"<-c":                    "RcvC",
 			"<-timeout.C":            "RcvTimerC",
 			"<-s.chSocketWriteError": "RcvWErr",
@@ -153,12 +164,13 @@ var targets = []target{
 			"timeout = time.NewTimer(time.Until(tdeadline))": "SCall (PTimerNew LRD)",
 			"timeout.Reset(time.Until(tdeadline))":           "SCall (PTimerReset LRD)",
 		}),
+		watch: map[string]string{"changed := l.rdChanged.watch()": "LRD"},
 		conds: merge(timerConds, map[string]string{
 			"tdeadline, ok := l.rd.Load().(time.Time); ok && !tdeadline.IsZero()":                                 "CDeadlineSet LRD",
 			"tdeadline, ok := l.rd.Load().(time.Time); !ok || tdeadline.IsZero() || time.Now().Before(tdeadline)": "CDeadlineNotDue LRD",
 		}),
 		comms: map[string]string{
-			"<-l.chDeadlineEvent":   "RcvLEvent",
+			"<-changed":             "RcvChanged",
 			"<-c":                   "RcvC",
 			"<-timeout.C":           "RcvTimerC",
 			"s := <-l.chAccepts":    "RcvAccept",
@@ -179,17 +191,18 @@ var targets = []target{
 		comms: map[string]string{"s.chWriteEvent <- struct{}{}": "SndWriteEvent"},
 	}},
 	{"UDPSession", "SetDeadline", "set_deadline_skel", "FSetDeadline", &dict{
-		stmts: map[string]string{"s.rd.Store(t)": "SCall (PStore RD)", "s.wd.Store(t)": "SCall (PStore WD)"},
+		stmts: map[string]string{"s.rd.Store(t)": "SCall (PStore RD)", "s.wd.Store(t)": "SCall (PStore WD)",
+			"s.rdChanged.broadcast()": "SCall (PBroadcast RD)", "s.wdChanged.broadcast()": "SCall (PBroadcast WD)"},
 		rets:  map[string]string{"return nil": "RNil"},
 		procs: sessProcs,
 	}},
 	{"UDPSession", "SetReadDeadline", "set_read_deadline_skel", "FSetReadDeadline", &dict{
-		stmts: map[string]string{"s.rd.Store(t)": "SCall (PStore RD)"},
+		stmts: map[string]string{"s.rd.Store(t)": "SCall (PStore RD)", "s.rdChanged.broadcast()": "SCall (PBroadcast RD)"},
 		rets:  map[string]string{"return nil": "RNil"},
 		procs: sessProcs,
 	}},
 	{"UDPSession", "SetWriteDeadline", "set_write_deadline_skel", "FSetWriteDeadline", &dict{
-		stmts: map[string]string{"s.wd.Store(t)": "SCall (PStore WD)"},
+		stmts: map[string]string{"s.wd.Store(t)": "SCall (PStore WD)", "s.wdChanged.broadcast()": "SCall (PBroadcast WD)"},
 		rets:  map[string]string{"return nil": "RNil"},
 		procs: sessProcs,
 	}},
@@ -263,8 +276,7 @@ var targets = []target{
 		procs: map[string]string{"l.SetReadDeadline(t)": "FLSetReadDeadline", "l.SetWriteDeadline(t)": "FLSetWriteDeadline"},
 	}},
 	{"Listener", "SetReadDeadline", "l_set_read_deadline_skel", "FLSetReadDeadline", &dict{
-		stmts: map[string]string{"l.rd.Store(t)": "SCall (PStore LRD)"},
-		comms: map[string]string{"l.chDeadlineEvent <- struct{}{}": "SndLEvent"},
+		stmts: map[string]string{"l.rd.Store(t)": "SCall (PStore LRD)", "l.rdChanged.broadcast()": "SCall (PBroadcast LRD)"},
 		rets:  map[string]string{"return nil": "RNil"},
 	}},
 	{"Listener", "SetWriteDeadline", "l_set_write_deadline_skel", "FLSetWriteDeadline", &dict{
@@ -291,6 +303,22 @@ var targets = []target{
 		},
 		onces: map[string]string{"l.socketReadErrorOnce": "OLErr"},
 	}},
+}
+
+// primBodies: the printed text of the declarations whose meaning is built into Model.v
+// (SWatch / RcvChanged / PBroadcast).  "type:" entries are type declarations, the others
+// "<receiver>.<method>" bodies.
+var primBodies = map[string]string{
+	"type:deadlineSignal":      "struct { mu sync.Mutex ch chan struct{} }",
+	"deadlineSignal.watch":     "{ d.mu.Lock() defer d.mu.Unlock() if d.ch == nil { d.ch = make(chan struct{}) } return d.ch }",
+	"deadlineSignal.broadcast": "{ d.mu.Lock() defer d.mu.Unlock() if d.ch != nil { close(d.ch) d.ch = nil } }",
+}
+
+// the signals the dictionaries speak about must be fields of that type (a `watch` method of
+// some other type would not be the primitive of the model)
+var primFields = map[string][]string{
+	"UDPSession": {"rdChanged", "wdChanged"},
+	"Listener":   {"rdChanged"},
 }
 
 // ---------------------------------------------------------------------------- translation
@@ -472,6 +500,14 @@ func (x *tr) stmt(s ast.Stmt) []string {
 	case *ast.ReturnStmt:
 		return []string{"SReturn " + x.lookup(d.rets, "ret", s, x.text(s))}
 	case *ast.AssignStmt, *ast.DeclStmt, *ast.DeferStmt, *ast.IncDecStmt:
+		if w, ok := d.watch[x.text(s)]; ok {
+			if x.dump {
+				x.leaves = append(x.leaves, "watch\t"+x.text(s))
+			}
+			n := x.id() // the yield point before the watch
+			x.id()      // n+1: the yield point after it (Ir.v, SWatch)
+			return []string{fmt.Sprintf("SWatch %d %s", n, w)}
+		}
 		return []string{x.lookup(d.stmts, "stmt", s, x.text(s))}
 	case *ast.EmptyStmt:
 		return nil
@@ -494,6 +530,67 @@ func recvName(fd *ast.FuncDecl) string {
 	return ""
 }
 
+// checkPrims: the declarations behind the IR's broadcast primitives read exactly as the model
+// assumes, and the signals named in the dictionaries are fields of type deadlineSignal.
+func checkPrims(fset *token.FileSet, f *ast.File, funcs map[string]*ast.FuncDecl) error {
+	x := &tr{fset: fset, t: &target{recv: "deadlineSignal", name: "*"}}
+	types := map[string]*ast.TypeSpec{}
+	for _, d := range f.Decls {
+		if gd, ok := d.(*ast.GenDecl); ok && gd.Tok == token.TYPE {
+			for _, sp := range gd.Specs {
+				ts := sp.(*ast.TypeSpec)
+				types[ts.Name.Name] = ts
+			}
+		}
+	}
+	for k, want := range primBodies {
+		var got string
+		if name, isType := strings.CutPrefix(k, "type:"); isType {
+			ts, ok := types[name]
+			if !ok {
+				return fmt.Errorf("type %s not found in sess.go (the broadcast primitive of the model)", name)
+			}
+			got = x.text(ts.Type)
+		} else {
+			fd, ok := funcs[k]
+			if !ok {
+				return fmt.Errorf("function (%s) not found in sess.go (a broadcast primitive of the model)", k)
+			}
+			got = x.text(fd.Body)
+		}
+		if x.err != nil {
+			return x.err
+		}
+		if got != want {
+			return fmt.Errorf("%s: the declaration behind a primitive of the model changed:\n  have %q\n  want %q", k, got, want)
+		}
+	}
+	for tn, fields := range primFields {
+		ts, ok := types[tn]
+		st, isStruct := (*ast.StructType)(nil), false
+		if ok {
+			st, isStruct = ts.Type.(*ast.StructType)
+		}
+		if !isStruct {
+			return fmt.Errorf("struct type %s not found in sess.go", tn)
+		}
+		for _, want := range fields {
+			found := false
+			for _, fl := range st.Fields.List {
+				for _, nm := range fl.Names {
+					if nm.Name == want {
+						found = x.text(fl.Type) == "deadlineSignal"
+					}
+				}
+			}
+			if !found {
+				return fmt.Errorf("%s.%s is not a field of type deadlineSignal", tn, want)
+			}
+		}
+	}
+	return nil
+}
+
 func run(repo, out string, dump bool) error {
 	fset := token.NewFileSet()
 	f, err := parser.ParseFile(fset, filepath.Join(repo, "sess.go"), nil, 0)
@@ -510,6 +607,9 @@ func run(repo, out string, dump bool) error {
 			funcs[k] = fd
 		}
 	}
+	if err := checkPrims(fset, f, funcs); err != nil && !dump { // -dump is for maintenance: list the leaves anyway
+		return err
+	}
 	var b strings.Builder
 	b.WriteString("(* GENERATED by /verif/extract/wait from /repo/sess.go - do not edit.\n")
 	b.WriteString("   Statement skeletons of the blocking calls and the notify sites, as terms of Ir.stmt. *)\n")
@@ -521,7 +621,7 @@ func run(repo, out string, dump bool) error {
 		if !ok {
 			return fmt.Errorf("function (%s).%s not found in sess.go", t.recv, t.name)
 		}
-		for _, m := range []*map[string]string{&t.d.stmts, &t.d.conds, &t.d.comms, &t.d.rets, &t.d.onces, &t.d.procs} {
+		for _, m := range []*map[string]string{&t.d.stmts, &t.d.conds, &t.d.comms, &t.d.rets, &t.d.onces, &t.d.procs, &t.d.watch} {
 			if *m == nil {
 				*m = map[string]string{}
 			}
